@@ -27,7 +27,8 @@ HTLC_SCN = [dict(file="scenarios/htlc_boundary.ndjson", cfg="users=2"),
 HTLC_MC = T([dict(cfg="MC_HTLC.cfg", timeout=900, heap="4g"), dict(cfg="MC_HTLC_assets.cfg", timeout=900, heap="4g"),
              dict(cfg="MC_HTLC_window.cfg", timeout=900, heap="4g")],
             [dict(cfg="MC_HTLC_big.cfg", timeout=3000, heap="6g"), dict(cfg="MC_HTLC_assets_big.cfg", timeout=3000, heap="6g"),
-             dict(cfg="MC_HTLC_window_big.cfg", timeout=3000, heap="6g")])
+             dict(cfg="MC_HTLC_window_big.cfg", timeout=3000, heap="6g"),
+             dict(cfg="MC_HTLC_both_big.cfg", timeout=3400, heap="6g")])
 
 # histories recorded (VERIF_RECORD_DIR) for the cross-module checks C11 / C12
 RECORD = [dict(binary="htlc", n=T(3, 12), len=40, cfg="users=3,limit1=6,limit2=6,tbl2=4,period=60,initbal=6")]
